@@ -1,5 +1,5 @@
 import CJ.Lemmas.Ingest
-import CJ.Props.C10
+import CJ.Lemmas.Detector
 /-!
 # C07 — a registration becomes usable only when every admission condition holds
 
@@ -723,12 +723,13 @@ theorem one_share_per_message (c : Cfg) (s : RSt) (m : Msg) (o : Oracles) (hsel 
 /-! ### link to C10: what is admitted is announceable -/
 
 /-- an admitted registration satisfies the announcement-relevant guarantees C10 starts from, provided
-the transport's protocol is TCP or UDP (`CJ.Props.C10.transport_protos_acceptable`) -/
+the transport's protocol is TCP or UDP (`CJ.Props.C10.transport_protos_acceptable`; composed with the
+detector's rules in `CJ.Props.C10.admitted_announcement_accepted`) -/
 theorem admitted_announceable (c : Cfg) (m : Msg) (o : Oracles) (f : Fam) (hsel : SelectorFam o) (r : Reg)
     (hr : regOf c m o f = some r)
     (hproto : o.proto = CJ.Detector.protoTcp ∨ o.proto = CJ.Detector.protoUdp)
     (hport : ∀ p, o.tpPort = some p → p < 65536) :
-    CJ.Props.C10.Announceable
+    CJ.Detector.Announceable
       { phantom := r.phantom, registrant := r.registrant, port := r.port, proto := r.proto } := by
   have hb := (regOf_some hr).2
   have hp := buildFam_phantom hsel hb
@@ -759,20 +760,6 @@ theorem admitted_announceable (c : Cfg) (m : Msg) (o : Oracles) (f : Fam) (hsel 
       cases hd : rr.dstPort with
       | none => simp only [hd]; exact hp443
       | some q => simp only [hd]; exact Nat.mod_lt q (by decide : 0 < 65536)
-
-/-- C07 ∘ C10: the announcement the station makes for a registration that ingest built (New when it
-is validated, Update once used) is accepted by the detector as that registration's session, with the
-station's own lifetime for that state. -/
-theorem admitted_announcement_accepted (c : Cfg) (m : Msg) (o : Oracles) (f : Fam) (hsel : SelectorFam o) (r : Reg)
-    (hr : regOf c m o f = some r)
-    (hproto : o.proto = CJ.Detector.protoTcp ∨ o.proto = CJ.Detector.protoUdp)
-    (hport : ∀ p, o.tpPort = some p → p < 65536) (st : CJ.Props.C10.RegState) :
-    ∃ ph cl, CJ.Detector.ipOf r.phantom = some ph ∧ CJ.Detector.ipOf r.registrant = some cl ∧
-      CJ.Detector.dispatch
-          (CJ.Props.C10.announce { phantom := r.phantom, registrant := r.registrant, port := r.port, proto := r.proto } st) =
-        .addOrUpdate { client := cl, phantom := ph, dstPort := r.port, srcPort := 0,
-                       proto := CJ.Props.C10.nextHeader r.proto, timeout := CJ.Props.C10.stationLifetime st } :=
-  CJ.Props.C10.timeouts_match _ (admitted_announceable c m o f hsel r hr hproto hport) st
 
 /-! ### non-vacuity: the hypotheses are satisfiable, and every condition can be the only one that fails -/
 
